@@ -1,5 +1,6 @@
 //! Shared generators (decoders from the choice source).
 
+pub mod calprog;
 pub mod classical;
 pub mod expr;
 pub mod ident;
